@@ -33,7 +33,7 @@ MAP = {
     'hilberthuang': ['C10'], 'hilberthuang_1d': ['C10'], 'holospectrum': ['C11'],
     'ensure_equal_dims': ['C19'], 'ensure_vector': ['C19'], 'ensure_1d_with_singleton': ['C19'], 'ensure_2d': ['C19'],
 }
-CLASSMAP = {'Cycles': ['C15'], 'IterateCycles': ['C15', 'C16'], 'SiftConfig': ['C18']}
+CLASSMAP = {'Cycles': ['C15', 'C13'], 'IterateCycles': ['C16', 'C14'], 'SiftConfig': ['C18']}
 FILEMAP = {'emd/_cycles_support.py': ['C16', 'C14', 'C15'], 'emd/logger.py': ['C20']}
 
 
